@@ -109,3 +109,57 @@ def feed(report, reps, props=None, kinds=None, funcs=None):
                       detail='%d path instances over scenarios %s' % (
                           s['inst'], sorted(set(s['scen']))),
                       meta={'line': o['line'], 'scenarios': s['scen']}))
+
+
+
+def feed_symm_kernel(report, tier):
+    """the library contract of misc.symm that the symmetric-s-blocks
+    obligations rely on, discharged on the C kernel that runs (use_C = True):
+    contracts/c/misc_spec.py"""
+    from engine import cside
+    from engine.checks import c_common
+    reps = cside.run_tasks([{'cfile': 'misc_solvers.c', 'fn': 'symm',
+                             'mode': 'spec',
+                             'module': 'contracts.c.misc_spec',
+                             'timeout_ms': 10000 if tier == 'quick'
+                             else 120000}])
+    c_common.feed(report, reps, ('symm-definition', 'covered'),
+                  need_spec=True)
+    prev = report.replayer
+
+    def replayer(ob, base):
+        if ob.kind == 'symm-definition':
+            from engine import replay_c
+            code = (
+                "from cvxopt import matrix, misc_solvers\n"
+                "bad = []\n"
+                "for n in (1, 2, 3, 4):\n"
+                "    for off in (0, 3):\n"
+                "        N = off + n*n + 2\n"
+                "        x = matrix([float(100 + i) for i in range(N)])\n"
+                "        before = list(x)\n"
+                "        misc_solvers.symm(x, n, off)\n"
+                "        for i in range(N):\n"
+                "            r, c = (i - off) % n, (i - off) // n\n"
+                "            inside = off <= i < off + n*n\n"
+                "            want = before[off + c + r*n] if inside and r < c"
+                " else before[i]\n"
+                "            if x[i] != want:\n"
+                "                bad.append((n, off, i, x[i], want))\n"
+                "assert not bad, 'misc.symm: %r' % (bad[:4],)\n")
+            env = replay_c.Env(interpose=False)
+            try:
+                res = env.call({'code': code})
+            finally:
+                env.close()
+            info = {'script': code, 'result': {k: v for k, v in res.items()
+                                               if k != 'stderr'}}
+            return res.get('exception') == 'AssertionError' or bool(
+                res.get('signal')), info
+        return prev(ob, base) if prev else (False, {'reason': 'no replayer'})
+    report.replayer = replayer
+    report.assumptions.append(
+        'misc.symm: proved on misc_solvers.c for well-formed arguments (a '
+        "'d' matrix long enough for the block); its missing argument "
+        'validation is a memory-safety matter (C19 class), not part of this '
+        'property')
